@@ -178,40 +178,50 @@ impl SnapshotReader {
         let mut message_reader = MessageBufReader::new();
         let mut buf = vec![0u8; 1024];
         file.seek(std::io::SeekFrom::Start(0)).await?;
-        let read_len = file.read(&mut buf).await?;
-        message_reader.append_next_buf(&buf[..read_len]);
-        if let Some(v) = message_reader.next_message_vec() {
-            let mut reader = BytesReader::from_bytes(v);
-            let header: SnapshotHeader = reader.read_message(v)?;
-            Ok(Self {
-                file,
-                header: header.into(),
-                message_reader,
-                is_end: false,
-            })
-        } else {
-            Err(anyhow::anyhow!("read snapshot head error"))
-        }
+        // the header may be longer than one read, and a read may return less than asked for
+        let header: SnapshotHeaderDto = loop {
+            if let Some(v) = message_reader.next_message_vec() {
+                let mut reader = BytesReader::from_bytes(v);
+                let header: SnapshotHeader = reader.read_message(v)?;
+                break header.into();
+            }
+            let read_len = file.read(&mut buf).await?;
+            if read_len == 0 {
+                return Err(anyhow::anyhow!("read snapshot head error"));
+            }
+            message_reader.append_next_buf(&buf[..read_len]);
+        };
+        Ok(Self {
+            file,
+            header,
+            message_reader,
+            is_end: false,
+        })
     }
 
     pub async fn init(path: &str) -> anyhow::Result<Self> {
         let mut file = Box::new(OpenOptions::new().read(true).open(path).await?);
         let mut message_reader = MessageBufReader::new();
         let mut buf = vec![0u8; 1024];
-        let read_len = file.read(&mut buf).await?;
-        message_reader.append_next_buf(&buf[..read_len]);
-        if let Some(v) = message_reader.next_message_vec() {
-            let mut reader = BytesReader::from_bytes(v);
-            let header: SnapshotHeader = reader.read_message(v)?;
-            Ok(Self {
-                file,
-                header: header.into(),
-                message_reader,
-                is_end: false,
-            })
-        } else {
-            Err(anyhow::anyhow!("read snapshot head error"))
-        }
+        // the header may be longer than one read, and a read may return less than asked for
+        let header: SnapshotHeaderDto = loop {
+            if let Some(v) = message_reader.next_message_vec() {
+                let mut reader = BytesReader::from_bytes(v);
+                let header: SnapshotHeader = reader.read_message(v)?;
+                break header.into();
+            }
+            let read_len = file.read(&mut buf).await?;
+            if read_len == 0 {
+                return Err(anyhow::anyhow!("read snapshot head error"));
+            }
+            message_reader.append_next_buf(&buf[..read_len]);
+        };
+        Ok(Self {
+            file,
+            header,
+            message_reader,
+            is_end: false,
+        })
     }
 
     pub fn get_header(&self) -> &SnapshotHeaderDto {
